@@ -92,6 +92,16 @@ class Agg:
                     self.counters[k] = self.counters.get(k, 0) + x
 
 
+def _die_with_parent():
+    """Workers must not outlive the driver (PR_SET_PDEATHSIG = 1)."""
+    try:
+        import ctypes
+        import signal
+        ctypes.CDLL("libc.so.6", use_errno=True).prctl(1, signal.SIGKILL)
+    except Exception:
+        pass
+
+
 def _run_one(check, batch, agg, timeout, dev, requeue):
     env = dict(os.environ)
     env.setdefault("PYTHONHASHSEED", "0")
@@ -99,7 +109,7 @@ def _run_one(check, batch, agg, timeout, dev, requeue):
     if batch.get("env"):
         env.update(batch["env"])
     p = subprocess.Popen(worker_cmd(check, dev), stdin=subprocess.PIPE, stdout=subprocess.PIPE,
-                         stderr=subprocess.PIPE, text=True, cwd=VERIF, env=env)
+                         stderr=subprocess.PIPE, text=True, cwd=VERIF, env=env, preexec_fn=_die_with_parent)
     inflight = [None]
     done = [False]
     killed = [False]
@@ -218,6 +228,9 @@ def write_evidence(pid, tier, seed, level, coverage, wall, violations, assumptio
     ev = {"property_id": pid, "tier": tier, "seed": seed, "level": level, "coverage": coverage,
           "assumptions": assumptions, "wall_s": round(wall, 2), "violations": violations}
     path = os.path.join(VERIF, "evidence", pid + ".json")
+    if bootstrap.REPO != "/repo":
+        # runs against a scratch copy (mutant validation) must not overwrite the evidence of the real tree
+        path = os.path.join(VERIF, "evidence", ".scratch", pid + ".json")
     os.makedirs(os.path.dirname(path), exist_ok=True)
     try:
         if bootstrap.deps_on_path():
